@@ -6,6 +6,7 @@ import (
 	"fmt"
 	"math/rand/v2"
 	"net"
+	"os"
 	"reflect"
 	"runtime/pprof"
 	"strings"
@@ -291,6 +292,33 @@ func libServeGoroutines() []string {
 // stopShard: once a 15 s watchdog has fired there is no point in paying it again for every further case of the shard
 var stopShard bool
 
+// Wall-clock waits decide nothing while the case runs among the other cases of a loaded machine: an expiry there hands
+// the case to the driver as a suspect, which re-runs it alone with limits six times as long; only then is an expiry a
+// violation (the two-stage rule of every termination watchdog here).
+var solo = os.Getenv("VERIF_REPLAY") != ""
+
+func wlimit(d time.Duration) time.Duration {
+	if solo {
+		return 6 * d
+	}
+	return d
+}
+
+var suspects []any
+
+// suspect records the current case for a solo re-run and stops the shard; it reports true when the caller should give
+// up WITHOUT a verdict (first stage), false when the expiry counts (solo re-run).
+func suspect(r *mon.Rec, rp replay, why string) bool {
+	if solo {
+		return false
+	}
+	suspects = append(suspects, rp)
+	r.Set("suspect_slow", append([]any{}, suspects...))
+	r.Inconclusive("wall-clock wait expired (" + why + "); case re-run alone by the driver")
+	stopShard = true
+	return true
+}
+
 func runCase(r *mon.Rec, famName string, idx int) {
 	rng := r.Rand("c14."+famName, idx)
 	v6 := famName == "server6"
@@ -367,7 +395,7 @@ func runCase(r *mon.Rec, famName string, idx int) {
 		h.encOut = string(enc())
 	}
 	waitHandlers := func() {
-		for dl := time.Now().Add(20 * time.Second); time.Now().Before(dl); {
+		for dl := time.Now().Add(wlimit(20 * time.Second)); time.Now().Before(dl); {
 			mu.Lock()
 			a := active
 			mu.Unlock()
@@ -468,7 +496,7 @@ func runCase(r *mon.Rec, famName string, idx int) {
 		it := items[i]
 		// generous watchdog: the loop must come back to read the next datagram although handlers are still running
 		abort := make(chan struct{})
-		tm := time.AfterFunc(15*time.Second, func() { close(abort) })
+		tm := time.AfterFunc(wlimit(15*time.Second), func() { close(abort) })
 		go func() {
 			select {
 			case <-serveDone:
@@ -494,7 +522,10 @@ func runCase(r *mon.Rec, famName string, idx int) {
 				close(endCh)
 				waitHandlers()
 				closeSrv()
-				bad("serve-loop-blocked", "after %d datagrams (%d of them undecodable) the serving loop did not read the next datagram for 15 s; %d handlers had been started and were held by the harness (neither a handler that is still running nor a malformed datagram may stop the loop)", fed, nbad(fed), started)
+				if suspect(r, rp, "the serving loop did not read the next datagram") {
+					return
+				}
+				bad("serve-loop-blocked", "after %d datagrams (%d of them undecodable) the serving loop did not read the next datagram for 90 s; %d handlers had been started and were held by the harness (neither a handler that is still running nor a malformed datagram may stop the loop)", fed, nbad(fed), started)
 				stopShard = true
 				return
 			}
@@ -521,11 +552,14 @@ func runCase(r *mon.Rec, famName string, idx int) {
 	if stopKind == "close" {
 		// all fed datagrams have been read; make sure the loop is back in ReadFrom before closing (a real Close can
 		// arrive at any time; datagrams already read must still be dispatched)
-		if !conn.WaitReadsTimeout(fed+1, 15*time.Second) {
+		if !conn.WaitReadsTimeout(fed+1, wlimit(15*time.Second)) {
 			close(endCh)
 			waitHandlers()
 			closeSrv()
-			bad("serve-loop-blocked", "after the last of %d datagrams the serving loop did not return to reading for 15 s while a handler was still running", fed)
+			if suspect(r, rp, "the serving loop did not return to reading") {
+				return
+			}
+			bad("serve-loop-blocked", "after the last of %d datagrams the serving loop did not return to reading for 90 s while a handler was still running", fed)
 			stopShard = true
 			return
 		}
@@ -533,9 +567,12 @@ func runCase(r *mon.Rec, famName string, idx int) {
 	}
 	select {
 	case <-serveDone:
-	case <-time.After(20 * time.Second):
+	case <-time.After(wlimit(20 * time.Second)):
 		close(endCh)
-		bad("serve-stuck", "Serve did not return within 20 s after the %s; goroutines: %v", stopKind, libServeGoroutines())
+		if suspect(r, rp, "Serve did not return after the stop") {
+			return
+		}
+		bad("serve-stuck", "Serve did not return within 120 s after the %s; goroutines: %v", stopKind, libServeGoroutines())
 		return
 	}
 	// handlers of datagrams read before the stop are started by now or will be shortly: wait until the expected number entered
@@ -549,7 +586,7 @@ func runCase(r *mon.Rec, famName string, idx int) {
 			copies[items[i].nonce]++
 		}
 	}
-	for dl := time.Now().Add(10 * time.Second); ; {
+	for dl := time.Now().Add(wlimit(10 * time.Second)); ; {
 		mu.Lock()
 		n := len(recs)
 		mu.Unlock()
@@ -557,6 +594,11 @@ func runCase(r *mon.Rec, famName string, idx int) {
 			break
 		}
 		if !time.Now().Before(dl) {
+			if suspect(r, rp, "not every decodable datagram had reached a handler") {
+				close(endCh)
+				waitHandlers()
+				return
+			}
 			stopShard = true // the missing dispatch is reported below; do not pay this wait again for every further case
 			break
 		}
@@ -564,6 +606,16 @@ func runCase(r *mon.Rec, famName string, idx int) {
 	}
 	close(endCh)
 	waitHandlers()
+	mu.Lock()
+	stillRunning := active
+	mu.Unlock()
+	if stillRunning > 0 {
+		if suspect(r, rp, "released handlers had not returned") {
+			return
+		}
+		bad("handlers-stuck", "%d handlers had not returned 120 s after they were released", stillRunning)
+		return
+	}
 	mu.Lock()
 	nc := nilCalls
 	mu.Unlock()
